@@ -14,7 +14,8 @@ EXPLANATION = (
     "converted to INTEGER before they enter a variable path; (R4) allocation follows the declaration: "
     "every ElementType / ExpressionType / TypeQualifier maps to the allocator of the same type and "
     "fixed-length strings are allocated with their declared length; (R5) LBOUND/UBOUND report field "
-    "0 / field 1 of the declared bounds.")
+    "0 / field 1 of the declared bounds; (R6) the stride of each dimension in abs_index is a "
+    "loop-carried product of the dimension sizes.")
 NOT_DECIDED = ["bijectivity of the flat index map (stride arithmetic) and element values (value-level)"]
 
 
@@ -198,6 +199,72 @@ def r5_bounds_reported(ctx, rule="C04.R5"):
     ctx.require(rule, 3)
 
 
+def _on_cycle(body, b):
+    return b in {x for s2 in body.succ(b) for x in body.reachable(s2)}
+
+
+def loop_carried_product(body, M):
+    """Is local M updated inside a loop by M := M * (..)?"""
+    pv = mir.Prov(body)
+    for b, blk in enumerate(body.blocks):
+        if blk.get("c") or not _on_cycle(body, b):
+            continue
+        for st in blk["s"]:
+            if st["k"] != "assign" or st["p"] != [M, []]:
+                continue
+            o = pv._of_rvalue(st["r"], 0)
+            while o[0] in ("field", "cast") and isinstance(o[1], mir.Origin):
+                if o[0] == "field" and o[1][0] == "bin":
+                    o = o[1]
+                    break
+                o = o[1]
+            if o[0] == "bin" and o[1].startswith("Mul"):
+                if mir.Origin(("local", M)) in (mir.strip_all(o[2]), mir.strip_all(o[3])):
+                    return True
+    return False
+
+
+def r6_stride_is_running_product(ctx, rule="C04.R6"):
+    """In abs_index the factor applied to (index - lbound) is a loop-carried product of the
+    dimension sizes (necessary for distinct tuples to map to distinct elements when there are three
+    or more dimensions)."""
+    prog = ctx.prog
+    fn = ctx.anchor_method("VArray", "abs_index")
+    body = fn.body
+    pv = mir.Prov(body)
+    strides = set()
+    for b, blk in enumerate(body.blocks):
+        if blk.get("c") or not _on_cycle(body, b):
+            continue
+        for st in blk["s"]:
+            if st["k"] == "assign" and st["r"]["k"] == "bin" and st["r"]["op"].startswith("Mul"):
+                a = pv.of_operand(st["r"]["a"])
+                c = pv.of_operand(st["r"]["b"])
+                ra, rc = _role_expr(a), _role_expr(c)
+                if ra == "offset" and mir.strip_all(c)[0] == "local":
+                    strides.add(mir.strip_all(c)[1])
+                if rc == "offset" and mir.strip_all(a)[0] == "local":
+                    strides.add(mir.strip_all(a)[1])
+    ok = bool(strides) and all(loop_carried_product(body, m) for m in strides)
+    ctx.decide(ok, rule, rule + ":abs_index", fn.loc,
+               "offset * stride, with stride := stride * size inside the loop",
+               "the factor applied to (index - lbound) in abs_index is not a running product of the "
+               "dimension sizes (stride locals %s): with three or more dimensions different index tuples "
+               "map to the same element" % sorted(strides))
+    ctx.require(rule, 1)
+
+
+def _role_expr(o):
+    """'offset' for (arg - lbound)"""
+    o = mir.strip_all(o)
+    while o[0] == "field" and isinstance(o[1], mir.Origin) and o[1][0] == "bin":
+        o = o[1]
+    if o[0] == "bin" and o[1].startswith("Sub"):
+        if _role(o[2]) == "arg" and _role(o[3]) == "lbound":
+            return "offset"
+    return None
+
+
 def run(ctx):
     common.install(ctx)
     c06.r2_store_routes(ctx, "C04.R1", strings_only=True)
@@ -205,3 +272,4 @@ def run(ctx):
     r3_index_cast(ctx)
     r4_allocation(ctx)
     r5_bounds_reported(ctx)
+    r6_stride_is_running_product(ctx)
